@@ -22,14 +22,31 @@ def kvGet (toks : List String) (k : String) : Option String :=
 
 def natOf (s : Option String) : Nat := (s.bind String.toNat?).getD 0
 
+/-- values: hex, or `rep:<n>:<byte>` for a run of n equal bytes (the "large value" inputs of the histories) -/
+def parseHexV (s : String) : Option Bytes :=
+  if s.startsWith "rep:" then
+    match s.splitOn ":" with
+    | [_, n, bb] => do
+      let n ← n.toNat?
+      match ← parseHex bb with
+      | [x] => pure (List.replicate n x)
+      | _ => none
+    | _ => none
+  else parseHex s
+
+def toHexV (b : Bytes) : String :=
+  match b with
+  | x :: rest => if b.length ≥ 256 && rest.all (· == x) then s!"rep:{b.length}:{toHex [x]}" else toHex b
+  | [] => toHex b
+
 def parseVal (s : String) : Option Val :=
-  if s = "nil" then some ⟨true, []⟩ else (parseHex s).map (⟨false, ·⟩)
+  if s = "nil" then some ⟨true, []⟩ else (parseHexV s).map (⟨false, ·⟩)
 
 def Obj.get (v : Variant) : Obj → Bytes → Option Bytes
   | .single p, k => p.get v k
   | .sharded s, k => s.get v k
 
-def showOpt (o : Option Bytes) : String := match o with | some b => toHex b | none => "!"
+def showOpt (o : Option Bytes) : String := match o with | some b => toHexV b | none => "!"
 
 /-- canonical dump: Get/Has of every key of the history's alphabet -/
 def dump (st : St) : String :=
